@@ -323,22 +323,29 @@ package dawn
 //   loader - modules this goroutine created in the registry and must load (token created by the
 //            insertion into proj.modules, consumed by module.done)
 //@ ghost loader refset threadlocal = ref_empty()
+//   announced[w] - the module this goroutine last published (under w's lock) as the one w waits on
+//@ ghost announced smt:(Array~Ref~Ref) threadlocal
 //@ ghost n_modload int threadlocal = 0
 
 //@ struct dawn.module
 //@   protected_by m: loading, loaded
 //@   cond cond guards m
 //@   both m: loaded-is-final: old(this.loaded) ==> this.loaded
+//@   on_release m: set announced = refmap_set(announced, this, this.loading)
 
 //@ func (*dawn.module).getLoading
 //@   requires m != nil
 //@   requires not-holding: !holds(m.m)
 //@   ensures  !holds(m.m)
+//@   modifies announced
 
 //@ func (*dawn.module).setLoading
 //@   requires m != nil
 //@   requires not-holding: !holds(m.m)
 //@   ensures  !holds(m.m)
+//@   ensures  announced[m] == other
+//@   ensures  others: forall x: ref :: x != m ==> announced[x] == old(announced)[x]
+//@   modifies announced
 
 // done publishes the result before it sets `loaded` under the lock.
 //@ func (*dawn.module).done
@@ -347,13 +354,41 @@ package dawn
 //@   ensures  !holds(m.m)
 //@   ensures  published: m.loaded && m.data == data && m.err == err
 //@   ensures  returns-its-arguments: result.0 == data && result.1 == err
-//@   modifies m.data, m.err
+//@   modifies m.data, m.err, announced
 
 // wait returns only when the module is loaded (with its published result), or with a cycle error.
 //@ func (*dawn.module).wait
 //@   requires m != nil
 //@   requires not-holding: !holds(m.m) && (waiter != nil ==> !holds(waiter.m))
 //@   requires no-module-locks: forall x: *dawn.module :: !holds(x.m)
+//@   requires edge-announced: waiter != nil ==> announced[waiter] == m
 //@   ensures  !holds(m.m)
 //@   ensures  loaded-or-cycle: m.loaded || result.1 != nil
-//@   modifies heap
+//@   modifies heap, announced
+//@   loop 0: invariant no-module-locks: forall x: *dawn.module :: !holds(x.m)
+//@   loop 0: invariant waiter != nil && m != nil
+//@   loop 1: invariant holds(m.m) && m != nil && acq(m.loaded) == m.loaded
+
+// Registry of modules: entries are only added, under proj.m, and never replaced.
+//@ struct dawn.Project
+//@   protected_by m: modules
+//@   invariant m: modules-nonnil: forall k: string :: has(this.modules, k) ==> this.modules[k] != nil
+//@   both m: modules-grow: forall k: string :: old(has(this.modules, k)) ==> (has(this.modules, k) && this.modules[k] == old(this.modules[k]))
+
+// loadModule: a module is executed only by the call that created and registered it; every other
+// caller announces the edge it is about to wait on and then waits.
+//@ func (*dawn.module).load
+//@   trusted
+//@   requires m != nil
+//@   ensures n_modload == old(n_modload) + 1
+//@   modifies heap, n_modload, announced
+//@ func (*dawn.Project).loadModule
+//@   requires proj != nil && label != nil && proj.modules != nil
+//@   requires no-locks: !holds(proj.m) && (forall x: *dawn.module :: !holds(x.m))
+//@   callsite load: assert only-the-creator-loads: !old(allocated($0))
+//@   ensures at-most-one-load: n_modload <= old(n_modload) + 1
+//@   modifies heap, n_modload, announced
+
+//@ func dawn.newLineWriter
+//@   ensures result != nil && !old(allocated(result))
+//@   ensures result.label == label && result.events == events
